@@ -393,14 +393,36 @@ static void list_stops()
     {
         const char* go;
     };
-    std::vector<std::string> gos = {"go depth 1", "go depth 2", "go depth 3", "go depth 4", "go infinite", "go depth 3 searchmoves @0 @1"};
+    std::vector<std::string> gos = {"go depth 1", "go depth 2", "go depth 3", "go depth 4", "go infinite", "go depth 3 searchmoves @0 @1",
+                                    "go depth 3 searchmoves @last", "go depth 3 searchmoves @castle"};
     for (auto& sp : SEEDS)
     {
         if (sp.cls == 2 && std::string(sp.name) != "startpos") continue;
         for (auto g : gos)
         {
             std::vector<std::string> ms = legal_ucis(sp.fen);
-            if (g.find('@') != std::string::npos)
+            if (g.find("@last") != std::string::npos)
+            {
+                // the last two legal moves: a fallback that forgets the restriction would pick the first one
+                if (ms.size() < 3) continue;
+                g = "go depth 3 searchmoves " + ms[ms.size() - 1] + " " + ms[ms.size() - 2];
+            }
+            else if (g.find("@castle") != std::string::npos)
+            {
+                // castling is encoded relative to the side to move: an answer printed from a position
+                // that was not restored shows up as e8g8 for White
+                std::string c;
+                for (auto& m : ms)
+                    if (m == "e1g1" || m == "e1c1" || m == "e8g8" || m == "e8c8")
+                    {
+                        ref::Pos rp;
+                        ref::parse_fen(sp.fen, rp);
+                        if (ref::lower(rp.b[(m[0] - 'a') + 8 * (m[1] - '1')]) == 'k') c += " " + m;
+                    }
+                if (c.empty()) continue;
+                g = "go depth 3 searchmoves" + c;
+            }
+            else if (g.find('@') != std::string::npos)
             {
                 if (ms.size() < 2) continue;
                 g = "go depth 3 searchmoves " + ms[0] + " " + ms[1];
@@ -752,7 +774,7 @@ static void list_depths()
     mc::Subspace sub;
     sub.name = "depth limits and searchmoves";
     bool q = TIER == "quick";
-    sub.bound = "cheap positions x go depth d for d in 1..45,60,100,1000 ; small positions x depth 1..4 x every non-empty searchmoves subset (<=6 root moves: all subsets; else singletons and adjacent pairs) x table pre-state {fresh, same position searched before at depth 5 without searchmoves}";
+    sub.bound = "cheap positions x go depth d for d in 1..45,60,100,1000 ; small positions x depth 1..4 x every non-empty searchmoves subset (<=6 root moves: all subsets; else singletons and adjacent pairs) x table pre-state {fresh, same position searched before at depth 5 without searchmoves}; every ordered pair of 9 go commands of different kinds in one session; depth + time control in one go";
     // deep limits on positions where iterations are cheap
     const char* cheap[] = {"7k/5K2/8/6Q1/8/8/8/8 b - - 0 1", "8/8/8/3k4/8/3K4/3B4/8 w - - 0 1", "k7/8/1K6/8/8/8/8/7B b - - 0 1", "8/8/8/3k4/8/3K4/3P4/8 w - - 0 1"};
     std::vector<int> ds;
@@ -788,6 +810,34 @@ static void list_depths()
                     sub.states++;
                     if (sub.states == 13) R.sample(spec_json(s));
                 }
+    }
+    // sequences of two `go` commands of different kinds in one session: nothing of the first may leak into the second
+    {
+        const char* fens2[] = {"8/8/8/3k4/8/3K4/3P4/8 w - - 0 1", "r3k2r/8/8/8/8/8/8/R3K2R w KQkq - 0 1", "8/8/8/3k4/8/8/3K4/R7 w - - 0 1"};
+        for (const char* fen : fens2)
+        {
+            auto ms = legal_ucis(fen);
+            std::vector<std::string> alpha = {"go depth 1", "go depth 3", "go infinite", "go nodes 1", "go movetime 50", "go wtime 200 btime 200 movestogo 2",
+                                              "go depth 2 searchmoves " + ms[0], "go depth 2 searchmoves " + ms[ms.size() - 1], "go depth 3 movetime 100000"};
+            for (auto& first : alpha)
+                for (auto& second : alpha)
+                {
+                    if (second == "go infinite") continue;   // the judged command must be finite
+                    for (int withpos = 0; withpos < 2; ++withpos)
+                    {
+                        if (!mine()) continue;
+                        if (R.out_of_time()) goto done;
+                        Session s = base(fen, second, "sequence");
+                        s.lines.insert(s.lines.begin() + 1, first);
+                        if (withpos) s.lines.insert(s.lines.begin() + 2, std::string("position fen ") + fen);
+                        if (first == "go infinite") s.spec.stop_at_first = 200;
+                        s.spec.clock_step_ms = 25;
+                        s.spec.horizon = 3000000;
+                        run_and_check(s);
+                        sub.states++;
+                    }
+                }
+        }
     }
     // a depth limit given together with a time control: the depth limit still binds
     for (auto& sp : SEEDS)
